@@ -37,7 +37,10 @@ def scenarios(rng, thorough):
                       'body_read': 16 * KIB, 'log_body_sends': True,
                       'max_steps': 60000, '_streams': streams}
                 out.append(sc)
-    for cfg, size, streams in ((base_cfg, mb, 1), (mp_cfg, mb + 512 * KIB, 2)):
+    # (the larger ones exceed the burst allowance several times over, so a ranged or a
+    #  single-request download that bypasses the limiter is visible)
+    for cfg, size, streams in ((base_cfg, mb, 1), (mp_cfg, mb + 512 * KIB, 2),
+                               (base_cfg, 4 * mb, 1), (big_mp, 6 * mb, 2)):
         for dst in ('path', 'nonseekable'):
             sc = {'name': 'bw-download', 'cfg': dict(cfg),
                   'transfers': [{'kind': 'download', 'dst': dst, 'size': size}],
